@@ -104,7 +104,7 @@ ICM(payouts, chips) ==
                           IN IF pos = {} THEN <<0, 1>>
                              ELSE QMul(<<payouts[CHOOSE j \in pos : TRUE], 1>>, OrderProb(chips, o, total))])]
 
-AnalysisKinds == {"range", "rangelist", "equity", "icm", "icmprop", "strength", "equityany"}
+AnalysisKinds == {"range", "rangelist", "equity", "icm", "icmprop", "strength", "equityany", "stats"}
 
 ARep(k, it, what) == PrintT(<<"MISMATCH", k, it.kind, what, it>>)
 
@@ -179,6 +179,42 @@ EquityAnyOK(k, it) ==
   /\ Len(it.micro) = Len(it.holes) \/ ARep(k, it, "one value per player")
   /\ (sum - 1000000 \in (0 - Len(it.micro))..Len(it.micro)) \/ ARep(k, it, <<"equities add up to", sum, "millionths">>)
 
+(***************************************************************************)
+(* Player statistics (analysis.Statistics).  A session is a sequence of    *)
+(* hands, each with the name sitting in every seat (0 = nobody), the       *)
+(* starting and the finishing stacks.  A player's payoffs are, in the      *)
+(* order of the hands, what each of his seats finished with minus what it  *)
+(* started with; the sample count is their number, the sum their sum, the  *)
+(* mean the sum over the count; merging statistics concatenates samples.   *)
+(***************************************************************************)
+StatsPayoffs(hands, nm) ==
+  FlattenSeq([h \in 1..Len(hands) |->
+     LET H == hands[h]
+         seats == SelectSeq([i \in 1..Len(H.names) |-> i], LAMBDA i : H.names[i] = nm)
+     IN [x \in 1..Len(seats) |-> H.fin[seats[x]] - H.start[seats[x]]]])
+
+StatsNames(hands) == UNION {{hands[h].names[i] : i \in 1..Len(hands[h].names)} : h \in 1..Len(hands)} \ {0}
+
+StatsItemOK(k, it) ==
+  LET names == StatsNames(it.hands)
+      got == it.got
+      G(nm) == got[CHOOSE x \in DOMAIN got : got[x].name = nm]
+      Abs(x) == IF x < 0 THEN 0 - x ELSE x
+  IN /\ ({got[x].name : x \in DOMAIN got} = names /\ Len(got) = Cardinality(names))
+          \/ ARep(k, it, <<"statistics are reported for", {got[x].name : x \in DOMAIN got}, "the players of the session are", names>>)
+     /\ \A nm \in names \cap {got[x].name : x \in DOMAIN got} :
+          LET want == StatsPayoffs(it.hands, nm) g == G(nm) IN
+          /\ g.payoffs = want \/ ARep(k, it, <<"player", nm, "payoffs", g.payoffs, "the hands say", want>>)
+          /\ g.count = Len(want) \/ ARep(k, it, <<"player", nm, "sample count", g.count, "hands played", Len(want)>>)
+          /\ g.sum = SumChips(want) \/ ARep(k, it, <<"player", nm, "payoff sum", g.sum, "the hands say", SumChips(want)>>)
+          /\ Abs(g.meanmilli * Len(want) - 1000 * SumChips(want)) <= Len(want)
+                \/ ARep(k, it, <<"player", nm, "mean (thousandths)", g.meanmilli, "sum", SumChips(want), "count", Len(want)>>)
+     /\ \A x \in DOMAIN it.merged :      \* statistics of the two halves of the session, merged: the whole session
+          it.merged[x].payoffs = StatsPayoffs(it.hands, it.merged[x].name)
+            \/ ARep(k, it, <<"merged halves, player", it.merged[x].name, it.merged[x].payoffs, "whole session", StatsPayoffs(it.hands, it.merged[x].name)>>)
+     /\ (it.closed => SumChips([x \in DOMAIN got |-> got[x].sum]) = 0 - it.rake)     \* everybody named: the payoffs add up to minus the rake
+            \/ ARep(k, it, <<"all seats are named and the payoff sums add up to", SumChips([x \in DOMAIN got |-> got[x].sum]), "rake", it.rake>>)
+
 AnalysisOK(k, it) ==
   CASE it.kind = "range" -> RangeItemOK(k, it)
     [] it.kind = "rangelist" -> ListItemOK(k, it)
@@ -187,4 +223,5 @@ AnalysisOK(k, it) ==
     [] it.kind = "icmprop" -> IcmPropOK(k, it)
     [] it.kind = "strength" -> StrengthItemOK(k, it)
     [] it.kind = "equityany" -> EquityAnyOK(k, it)
+    [] it.kind = "stats" -> StatsItemOK(k, it)
 =============================================================================
